@@ -294,6 +294,10 @@ class Pool():
 
                     logger.debug('Found an idle worker: {}, trying to enqueue workload from previous failures worker to it', idle)
                     try_enqueue(idle)
+                    if idle.id not in self._closed and not self._pending_per_worker[idle.id]:
+                        # nothing was enqueued although the worker is fine: the user-provided enqueue function refused the input and it has been
+                        # put back - offering it to the same idle worker over and over would never end, it will be offered again with the next result
+                        break
 
             def handle_no_enqueue(worker, reason):
                 logger.debug('Not enqueueing to the worker {}, reason: {}', worker, reason)
